@@ -152,7 +152,7 @@ func localImport(strings pr) {
 
 func (p *c25) program(c fw.Case) (string, map[string]string) {
 	r := p.rnd(c.Idx)
-	g := &gen.GoGen{R: r, FmtBias: true}
+	g := &gen.GoGen{R: r, FmtBias: true, NoHdrLit: true}
 	src := g.Program(r.Range(2, 5))
 	extra := c25Extra(r)
 	call := "\textra()\n"
